@@ -548,6 +548,13 @@ def run_host(ctx: Ctx, case: dict) -> list[str]:
     nq = case["nq"]
     host = lw.Circuit(2 * nq)
 
+    def at(step, mode: int):
+        """the mode number of an add(), handed over as a numpy integer for a third of the steps (fixed per step)"""
+        import zlib
+
+        h = zlib.crc32(json.dumps(step, sort_keys=True).encode()) % 3
+        return np.int64(mode) if h == 0 else mode
+
     def place(target, step):
         """add one step to `target`; returns (matrix on nq qubits, |scalar|^2)"""
         from lightworks import qubit
@@ -590,9 +597,9 @@ def run_host(ctx: Ctx, case: dict) -> list[str]:
             pad, width_q, g_inner = blk
             block = lw.Circuit(2 * width_q)
             block.add(gate, 2 * pad, group=g_inner)
-            target.add(block, 2 * (q - pad), group=step["group"])
+            target.add(block, at(step, 2 * (q - pad)), group=step["group"])
         else:
-            target.add(gate, 2 * q, group=step["group"])
+            target.add(gate, at(step, 2 * q), group=step["group"])
         g = gcase["gate"]
         if g in FIXED_SINGLE or g in ROT:
             return embed_gate(nq, [q], qg.named_single(g, {"theta": theta_of(gcase)} if g in ROT else None)), Fraction(1)
